@@ -148,7 +148,7 @@ prop(
          "every k in 1..=W of every generated history is run; a cell = (write site, enclosing operation, recovery outcome)",
     sizes=tiers(16, 4, 75, 16, 60, 1500, min_evals=300, min_cells=10),
     technique="runtime fault injection at the before_write hook (process-death model: writes < k durable, write k and later never happen), restart from disk, bounded-progress recovery, reference-indexer comparison",
-    level_text="For every generated sync history (first-run initialisation, set_scripts all / delete, filter batches, block download and indexing, tip updates, check point finalization, shallow fork rollback, restarts) a crash-free run is validated against the reference indexer and then every write boundary of that history is crashed: the store must reopen (twice in a row) without panic and continued syncing must reach answers equal to the reference at the final tip. set_scripts calls arrive both at rest and mid-sync (matched blocks pending). A mismatch is attributed to the crash only if the same history with a clean restart at the same act is clean; mismatches that the clean restart reproduces are counted, not judged (they belong to C04 / C05). The crash model (unwinding at the hook, handles dropped, same-process reopen) is cross-checked at a sample of the write boundaries of every history by a child process that really abort()s before that write: its store is compared with the model's and the recovery is run from it.",
+    level_text="For every generated sync history (first-run initialisation, set_scripts all / delete, filter batches, block download and indexing, tip updates, check point finalization, shallow fork rollback, restarts) a crash-free run is validated against the reference indexer and then every write boundary of that history is crashed: the store must reopen (twice in a row) without panic and continued syncing must reach answers equal to the reference at the final tip. set_scripts calls arrive both at rest and mid-sync (matched blocks pending). A mismatch is attributed to the crash only if the same history with a clean restart at the same act is clean; mismatches that the clean restart reproduces are counted, not judged (they belong to C04 / C05). The crash model (unwinding at the hook, handles dropped, same-process reopen) is cross-checked at a sample of the write boundaries of every history by a child process that really abort()s before that write: its store is compared with the model's and the recovery is run from it. After the recovery the history's fetch_header / fetch_transaction / get_transaction calls are repeated: they must answer, and a committed answer comes with a stored header.",
     level_note="process death between two writes (batches are atomic); torn writes / fsync loss are out of scope; all scripts are registered with start number 0 so that the reference is exact; one serving peer keeps the write sequence reproducible (crash points not reached are counted, not claimed)",
 )
 
@@ -210,7 +210,7 @@ prop(
          "a cell = (operator, verdicts) / pool fill class / relay event",
     sizes=tiers(16, 120, 60, 16, 800, 900, min_evals=1500, min_cells=12),
     technique="runtime monitoring: reference verdict by construction, FIFO-with-limit pool model, exactly-once checker per (peer id, hash) over RecNet's relay log, cycles equality across estimate / pool / relay",
-    level_text="On a synced client whose chain deploys the always-success script and, in half of the scenarios, the real secp256k1_blake160_sighash_all lock (bundled system script; transactions signed by the harness, so the verdict depends on the witness: flipped signature bit, other key, missing signature, and same-hash variants of a pending transaction with a corrupted signature or an oversized witness are rejected and leave the pending entry byte-identical): valid transactions (incl. chains spending outputs of pending ones, beyond the pool limit of 64) are accepted by send_transaction and estimate_cycles with the same cycles, every mutant (capacity overflow, duplicated / unknown input, unknown dep, immature since, output below occupied capacity, script code missing, duplicated dep, garbage dep group, no outputs) is rejected by both and stays unknown and unrelayed, the pool equals a FIFO-with-limit model with members reported pending, each pending hash is announced at most once per peer id, and GetRelayTransactions serves only pool members with the estimated cycles.",
+    level_text="On a synced client whose chain deploys the always-success script and, in half of the scenarios, the real secp256k1_blake160_sighash_all lock (bundled system script; transactions signed by the harness, so the verdict depends on the witness: flipped signature bit, other key, missing signature, and same-hash variants of a pending transaction with a corrupted signature or an oversized witness are rejected and leave the pending entry byte-identical): valid transactions (incl. chains spending outputs of pending ones, beyond the pool limit of 64) are accepted by send_transaction and estimate_cycles with the same cycles, every mutant (capacity overflow, duplicated / unknown input, unknown dep, immature since, output below occupied capacity, script code missing, duplicated dep, garbage dep group, no outputs) is rejected by both and stays unknown and unrelayed, the pool equals a FIFO-with-limit model with members reported pending, each pending hash is announced at most once per peer id, and GetRelayTransactions serves only pool members with the estimated cycles. since locks with a reference verdict: absolute / relative block number, absolute epoch, relative to committed cells and to outputs of pending transactions.",
     level_note="the two relay branches that need tentacle's ServiceControl (open / close protocol) are not reachable with the recording network context; script verification itself (ckb-script, the bundled secp256k1 binary) is trusted",
 )
 
